@@ -406,6 +406,13 @@ func (p *Path) mkAdd(x, y value) value {
 	if yok && yc == 0 {
 		return x
 	}
+	// x + (a - x) = a
+	if ys, ok := y.(*Sym); ok && ys.op == "sub" && tInt(ys.a[1]) == tInt(x) {
+		return ys.a[0]
+	}
+	if xs, ok := x.(*Sym); ok && xs.op == "sub" && tInt(xs.a[1]) == tInt(y) {
+		return xs.a[0]
+	}
 	xl, xh := p.ivOf(x)
 	yl, yh := p.ivOf(y)
 	return &Sym{sort: SInt, e: "(+ " + tInt(x) + " " + tInt(y) + ")", lo: addBig(xl, yl), hi: addBig(xh, yh)}
@@ -427,7 +434,7 @@ func (p *Path) mkSub(x, y value) value {
 	}
 	xl, xh := p.ivOf(x)
 	yl, yh := p.ivOf(y)
-	return &Sym{sort: SInt, e: "(- " + tInt(x) + " " + tInt(y) + ")", lo: subBig(xl, yh), hi: subBig(xh, yl)}
+	return &Sym{sort: SInt, e: "(- " + tInt(x) + " " + tInt(y) + ")", lo: subBig(xl, yh), hi: subBig(xh, yl), op: "sub", a: []interface{}{x, y}}
 }
 
 func (p *Path) mkMul(x, y value) value {
@@ -510,6 +517,12 @@ func (p *Path) mkLen(s value) value {
 		return int64(len(s))
 	case *Sym:
 		if s.ln != nil {
+			if ls, ok := s.ln.(*Sym); ok && (ls.lo == nil || ls.lo.Sign() < 0) {
+				// a length is never negative
+				cp := *ls
+				cp.lo = bigZero
+				return &cp
+			}
 			return s.ln
 		}
 		if s.op == "concat" {
@@ -537,7 +550,7 @@ func mkConcat(x, y value) value {
 		return x
 	}
 	segs := append(append([]interface{}{}, segmentsOf(x)...), segmentsOf(y)...)
-	// merge adjacent concrete segments
+	// merge adjacent concrete segments and adjacent substrings of one source
 	var m []interface{}
 	for _, sg := range segs {
 		if c, ok := sg.(string); ok && len(m) > 0 {
@@ -546,13 +559,96 @@ func mkConcat(x, y value) value {
 				continue
 			}
 		}
+		if cur, ok := sg.(*Sym); ok && len(m) > 0 {
+			if prev, ok := m[len(m)-1].(*Sym); ok {
+				if merged := mergeAdjacent(prev, cur); merged != nil {
+					m[len(m)-1] = merged
+					continue
+				}
+			}
+		}
 		m = append(m, sg)
+	}
+	if len(m) == 1 {
+		return m[0]
 	}
 	parts := make([]string, len(m))
 	for k, sg := range m {
 		parts[k] = tStr(sg)
 	}
 	return &Sym{sort: SStr, e: "(str.++ " + strings.Join(parts, " ") + ")", op: "concat", a: m}
+}
+
+// mergeAdjacent: substr(s,a,n1) ++ substr(s,a+n1,n2) = substr(s,a,n1+n2); a
+// leading piece substr(s,0,n1) followed by the rest substr(s,n1,len(s)-n1) = s.
+func mergeAdjacent(x, y *Sym) value {
+	// x may be the source itself cut to a prefix, y a substr of the same source
+	if y.op != "substr" {
+		return nil
+	}
+	ysrc, yoff, yn := y.a[0], y.a[1], y.a[2]
+	var xsrc value
+	var xoff, xn value
+	if x.op == "substr" {
+		xsrc, xoff, xn = x.a[0], x.a[1], x.a[2]
+	} else {
+		return nil
+	}
+	if tStr(xsrc) != tStr(ysrc) {
+		return nil
+	}
+	end := simpleAdd(xoff, xn)
+	if tInt(end) != tInt(yoff) {
+		return nil
+	}
+	total := simpleAdd(xn, yn)
+	// whole source?
+	if oc, ok := xoff.(int64); ok && oc == 0 {
+		if src, ok := xsrc.(*Sym); ok {
+			lenText := tInt(plainLen(src))
+			// yn is typically (- len xn): total = xn + (len - xn)
+			if tInt(yn) == "(- "+lenText+" "+tInt(xn)+")" {
+				return src
+			}
+		}
+	}
+	return &Sym{sort: SStr, e: "(str.substr " + tStr(xsrc) + " " + tInt(xoff) + " " + tInt(total) + ")", ln: total, op: "substr", a: []interface{}{xsrc, xoff, total}}
+}
+
+// plainLen: length term of a string value in the same textual form mkLen uses.
+func plainLen(v value) value {
+	switch v := v.(type) {
+	case string:
+		return int64(len(v))
+	case *Sym:
+		if v.ln != nil {
+			return v.ln
+		}
+		if v.op == "concat" {
+			var total value = int64(0)
+			for _, sg := range v.a {
+				total = simpleAdd(total, plainLen(sg))
+			}
+			return total
+		}
+		return &Sym{sort: SInt, e: "(str.len " + v.e + ")"}
+	}
+	return int64(0)
+}
+
+func simpleAdd(x, y value) value {
+	xc, xok := x.(int64)
+	yc, yok := y.(int64)
+	if xok && yok {
+		return xc + yc
+	}
+	if xok && xc == 0 {
+		return y
+	}
+	if yok && yc == 0 {
+		return x
+	}
+	return &Sym{sort: SInt, e: "(+ " + tInt(x) + " " + tInt(y) + ")"}
 }
 
 // segmentsOf returns the concatenation segments of a string value.
@@ -616,14 +712,25 @@ func (p *Path) mkSubstr(s, off, n value) value {
 					return concatOf(segs[:k+1])
 				}
 			}
-			// a concrete cut position may coincide with a segment boundary semantically
-			if nok {
+			// a concrete cut position: keep whole leading segments and cut inside
+			// the first segment that reaches beyond it (decided by validity queries)
+			if nok && p.interp != nil {
 				acc = int64(0)
-				for k, sg := range segs[:len(segs)-1] {
-					acc = p.mkAdd(acc, p.mkLen(sg))
-					if _, sym := acc.(*Sym); sym && p.validEq(acc, n) {
+				for k, sg := range segs {
+					next := p.mkAdd(acc, p.mkLen(sg))
+					if _, sym := next.(*Sym); sym && p.validEq(next, n) {
 						return concatOf(segs[:k+1])
 					}
+					if p.validCond(p.mkIntCmp("<=", next, n)) {
+						acc = next
+						continue
+					}
+					// the cut falls inside sg if acc <= n <= next always
+					if k > 0 && p.validCond(p.mkIntCmp("<=", acc, n)) && p.validCond(p.mkIntCmp("<=", n, next)) {
+						piece := p.mkSubstr(sg, int64(0), p.mkSub(n, acc))
+						return mkConcat(concatOf(segs[:k]), piece)
+					}
+					break
 				}
 			}
 		}
@@ -642,7 +749,16 @@ func (p *Path) mkSubstr(s, off, n value) value {
 			}
 		}
 	}
-	return &Sym{sort: SStr, e: "(str.substr " + tStr(s) + " " + tInt(off) + " " + tInt(n) + ")", ln: n}
+	r := &Sym{sort: SStr, e: "(str.substr " + tStr(s) + " " + tInt(off) + " " + tInt(n) + ")", ln: n, op: "substr", a: []interface{}{s, off, n}}
+	if ss, ok := s.(*Sym); ok {
+		if a, ok := p.alpha[ss.e]; ok {
+			p.alpha[r.e] = a // a substring keeps the alphabet
+		}
+		if p.facts["class|asciiws|"+ss.e] {
+			p.facts["class|asciiws|"+r.e] = true
+		}
+	}
+	return r
 }
 
 // mkAt: byte value s[i] as Int (bounds checked by caller).
@@ -763,29 +879,26 @@ func (p *Path) suffixV(suf, s value) value {
 		return mkSuffixOf(suf, s)
 	}
 	segs := segmentsOf(s)
+	// suffixof(c, X ++ Y) with Y never ending in c  ==  (Y == "" and suffixof(c, X))
+	var cond value = true
 	for k := len(segs) - 1; k >= 0; k-- {
 		switch sg := segs[k].(type) {
 		case string:
 			if sg != "" {
-				return strings.HasSuffix(sg, c)
+				return mkAnd(cond, strings.HasSuffix(sg, c))
 			}
 		case *Sym:
 			if a, ok := p.alpha[sg.e]; ok && !a[c[0]] {
 				p.facts["noend|"+sg.e+"|"+c] = true
 			}
-			if p.facts["noend|"+sg.e+"|"+c] {
-				// empty or not ending with c: the answer is decided further left
-				// only if the segment is empty; if a concrete non-matching byte
-				// precedes, the whole answer is false
-				if k > 0 {
-					if prev, ok := segs[k-1].(string); ok && prev != "" && !strings.HasSuffix(prev, c) {
-						return false
-					}
-				} else {
-					return false
-				}
+			if !p.facts["noend|"+sg.e+"|"+c] {
+				return mkAnd(cond, mkSuffixOf(suf, concatOf(segs[:k+1])))
 			}
-			return mkSuffixOf(suf, concatOf(segs[k:]))
+			lo, _ := p.ivOf(p.mkLen(sg))
+			if lo != nil && lo.Sign() > 0 {
+				return false
+			}
+			cond = mkAnd(cond, p.mkIntCmp("=", p.mkLen(sg), int64(0)))
 		}
 	}
 	return false
